@@ -3,6 +3,7 @@ import itertools
 import json
 
 from harness import sessions
+from harness.common import bud
 from harness.sessions import SB
 
 PROP = "C13"
@@ -393,7 +394,7 @@ def run(ctx, out, budget):
         out.exhaustive_scope = "all ordered pairs of the %d type systems over 2 names x both orders; samples of pairs over 3 names and of triples" % len(small)
     run_groups(ctx, out, [list(g) for g in groups], "pool3")
     pool = ["p.T%d" % i for i in range(8)]
-    big = [[random_tsd(rng, pool, 2) for _ in range(rng.randint(2, 4))] for _ in range(60 if budget == "quick" else 1500)]
+    big = [[random_tsd(rng, pool, 2) for _ in range(rng.randint(2, 4))] for _ in range(bud(budget, 60, 1500))]
     run_groups(ctx, out, big, "rand", exhaustive_perms=False)
     out.partial = ["merge_perm_invariant (order/grouping independence): exhaustive small-pool correspondence only, no theorem"]
 
